@@ -581,7 +581,7 @@ def _beh_worker(args):
     states, = args
     uni, projects, judge, base = (_G[k] for k in ("uni", "projects", "judge", "base"))
     r = replay_behaviour(uni, projects, states, judge, base)
-    script = [dict(op=s["last"]["op"], args=W._plain(s["last"]["args"]), res=s["last"]["res"]) for s in states[1:]]
+    script = W.script_of(states)
     return r, script
 
 
@@ -725,7 +725,7 @@ def _account(ctx, pid, cfg, flat, total, nnodes):
 
 def _report(ctx, pid, cfg, mismatch, verdicts, script):
     for (k, sig, what) in verdicts:
-        ctx.violation(sig, what, {"config": cfg.name, "spelling": cfg.spelling, "projects": list(cfg.projects), "script": script, "step": k})
+        ctx.violation(sig, what, {"config": cfg.name, "spelling": cfg.spelling, "projects": list(cfg.projects), "init": getattr(script, "init", None), "script": list(script) if script is not None else None, "step": k})
     if mismatch:
         k, bad = mismatch
         kinds = sorted(set(b[0] for b in bad))
@@ -734,7 +734,7 @@ def _report(ctx, pid, cfg, mismatch, verdicts, script):
         if pid == "C03" and any(kd in ("ws", "cache", "strays", "litter") for kd in kinds):
             ctx.violation("diverges-from-model:%s:%s" % (op, "+".join(kd for kd in kinds if kd in ("ws", "cache", "strays", "litter"))),
                           "the workspace on disk differs from the model after %s: %s" % (op, str([b for b in bad if b[0] in ("ws", "cache", "strays", "litter")])[:600]),
-                          {"config": cfg.name, "spelling": cfg.spelling, "projects": list(cfg.projects), "script": script, "step": k})
+                          {"config": cfg.name, "spelling": cfg.spelling, "projects": list(cfg.projects), "init": getattr(script, "init", None), "script": list(script) if script is not None else None, "step": k})
         else:
             ctx.spec_drift(desc + " script=" + json.dumps([[x["op"], x["args"], x["res"]] for x in (script or [])[:k + 1]]))
 
@@ -746,7 +746,7 @@ def _requirement_violation(ctx, pid, cfg, uni, r, judge):
     if len(trace) < 2:
         raise core.MachineryError("TLC reported %s without a usable trace:\n%s" % (name, r.stdout[-2000:]))
     out = replay_behaviour(uni, cfg.projects, trace, judge, ctx.work)
-    script = [dict(op=s["last"]["op"], args=W._plain(s["last"]["args"]), res=s["last"]["res"]) for s in trace[1:]]
+    script = W.script_of(trace)
     ctx.count(("tlc-counterexample", name), n=len(script), traces=1)
     ctx.cov.setdefault("tlc_requirement_violations", []).append({"requirement": name, "config": cfg.name, "script": script, "real_verdicts": [v[1] for v in out["verdicts"]],
                                                                  "conformant": out["mismatch"] is None})
@@ -778,6 +778,8 @@ def replay_script(ctx, pid, data):
     projects = tuple(data.get("projects", ["P"]))
     w = World2(uni, projects, base=ctx.work)
     try:
+        if data.get("init"):
+            w.materialise(W.init_thaw(data["init"]))
         for s in data["script"]:
             last = {"op": s["op"], "args": _thaw(s["args"]), "res": s["res"]}
             res, val = w.do(last)
@@ -1037,7 +1039,7 @@ def run_recorded(ctx, pid, name, n, length, ops, spelling="wide", keys=("a", "b"
     consts = {"Projects": tlc.lit(set(projects)), "Keys": tlc.lit(set(keys)), "Vals": tlc.lit(set(vals)), "Handles": tlc.lit(set(handles)),
               "DocVals": tlc.lit({"d1", "d2"}), "FileNames": tlc.lit({"f1", "f2"}), "FVals": tlc.lit({"c1", "c2"}), "MaxDepth": 10**6,
               "IdOrder": "<- IdOrderDef", "Ops": "<- OpsDef", "InitJobs": "<- InitJobsDef", "InitCache": "<- InitCacheDef",
-              "FixedD3": tlc.lit(W.probe_d3()), "FixedD4": tlc.lit(W.probe_d4())}
+              "FixedD3": tlc.lit(W.probe_d3()), "FixedD4": tlc.lit(W.probe_d4()), "FixedD7": tlc.lit(W.probe_d7())}
     cfg = tlc.cfg(consts, init="TrInit", next="TrNext", constraints=["Track"], postcondition="Post",
                   invariants=["TraceHashInvX", "TraceCheckX"] if not set(ops) & {"corrupt", "corrupt_other", "rename_dir"} else [])
     r = tlc.run(os.path.join(d, "TR.tla"), cfg_text=cfg, workdir=d, workers=1, env={"TRACE_FILE": fn}, coverage=False, timeout=3600)
